@@ -215,7 +215,7 @@ _add(
          "output, syncurrent and synspike are compared with the undelayed twin's logged state shifted per synapse. "
          "One evaluation = one step; distinct = (connection, synapse, dt, K, tolerance, delay mode, interpolation, "
          "dtype, batch, bias, start-up/steady) abstractions.",
-    required=["delayed_steps_checked", "zero_delay_steps", "delay_reassignments", "clears", "retimed_connections", "redelayed_connections"],
+    required=["delayed_steps_checked", "zero_delay_steps", "delay_reassignments", "clears", "retimed_connections", "redelayed_connections", "delayed_conv_with_stride_padding_or_dilation"],
     floor={"quick": 150, "thorough": 600},
     text="Held on every history explored: a real delayed connection and an undelayed twin with identical parameters are "
          "stepped on the same inputs; the delayed output and the delay-offset views must equal the connection's map of "
